@@ -172,7 +172,11 @@ func (x *fnv) oblige(s *State, kind, label string, goal *Term, pos token.Pos, cl
 		if os.Getenv("GOVC_DEBUG") != "" {
 			println("trivial obligation:", x.qual()+"#"+kind+"."+label)
 		}
-		return
+		// a written assertion or postcondition whose goal folds to true while it is built (both sides are the same
+		// term) is still reported, so that the named obligation does not vanish from the evidence and the baseline
+		if cl == nil || (kind != "assert" && kind != "post") || (x.fc != nil && x.fc.Skip[kind]) {
+			return
+		}
 	}
 	if x.fc != nil && (x.fc.Skip[kind] || (strings.HasSuffix(kind, ".frame") && x.fc.Skip["loopframe"])) {
 		s.Assume(goal)
